@@ -1,9 +1,108 @@
 import Lean.Data.Json
-/-! Line-protocol handler for property C09 (model side of the correspondence). -/
-namespace Drv.C09
-open Lean
+import SpoxModel.Model.Opset
+/-! Line-protocol handler for property C09 (model side of the correspondence).
 
-/-- One request (a JSON value) in, one response (a JSON value) out. -/
-def handle (_req : Json) : Json := Json.mkObj [("error", "unimplemented")]
+Requests (`t`):
+* `policy`  `{reqs:[[d,v]…]}`                → `{policy:[[d,v]…]}`             (`max_opset_policy`)
+* `since`   `{d,o,v}`                        → `{since: n | null}`             (generated SCHEMAS lookup)
+* `accepts` `{d,o,s,v}`                      → `{accepts: bool}`
+* `model`   `{graph: G}`                     → imports, every node's opsets and decision, function imports
+  with `G = {nodes:[N…]}`, `N = {k, d, o, v, np, c, subs:[G…], id, imports, hd}`.
+-/
+namespace Drv.C09
+open Lean Opset
+
+def opId (d name : String) : Nat :=
+  match Generated.OpsetFacts.opNames.idxOf? (fold d, name) with
+  | some i => i
+  | none => Generated.OpsetFacts.opNames.length
+
+def parseReq (j : Json) : Except String Req := do
+  let a ← j.getArr?
+  let d ← (a.getD 0 Json.null).getStr?
+  let v ← (a.getD 1 Json.null).getNat?
+  return (d, v)
+
+def parseReqs (j : Json) : Except String (List Req) := do
+  let a ← j.getArr?
+  a.toList.mapM parseReq
+
+mutual
+partial def parseNode (j : Json) : Except String PNode := do
+  let k ← j.getObjValAs? String "k"
+  let np := (j.getObjValAs? Nat "np").toOption.getD 1
+  let c := (j.getObjValAs? Bool "c").toOption.getD true
+  let id := (j.getObjValAs? Nat "id").toOption.getD 0
+  let subsJ := (j.getObjValAs? (Array Json) "subs").toOption.getD #[]
+  let subs ← subsJ.toList.mapM parseGraph
+  let d := (j.getObjValAs? String "d").toOption.getD ""
+  let v := (j.getObjValAs? Nat "v").toOption.getD 0
+  let kind ← match k with
+    | "internal" => pure Kind.internal
+    | "intro" => pure Kind.intro
+    | "inline" => do
+        let imps ← parseReqs (← j.getObjVal? "imports")
+        let hd ← j.getObjValAs? Bool "hd"
+        pure (Kind.inline imps hd)
+    | "op" => do
+        let o ← j.getObjValAs? String "o"
+        pure (Kind.op d (opId d o) v)
+    | "func" => pure (Kind.func d v)
+    | _ => throw s!"bad kind {k}"
+  return .mk kind np c subs id
+partial def parseGraph (j : Json) : Except String PGraph := do
+  let ns ← j.getObjValAs? (Array Json) "nodes"
+  return .mk (← ns.toList.mapM parseNode)
+end
+
+def reqsJson (l : List Req) : Json := Json.arr (l.map (fun r => Json.arr #[Json.str r.1, toJson r.2])).toArray
+
+def decJson : Decision → List (String × Json)
+  | .keepInline => [("dec", "keepInline")]
+  | .convertInline s t => [("dec", "convertInline"), ("src", toJson s), ("tgt", toJson t)]
+  | .keepInternal => [("dec", "keepInternal")]
+  | .keepProtos => [("dec", "keepProtos")]
+  | .keepSubgraph => [("dec", "keepSubgraph")]
+  | .keepSameVersion => [("dec", "keepSameVersion")]
+  | .keepSameSchema => [("dec", "keepSameSchema")]
+  | .keepNonDefault s t => [("dec", "keepNonDefault"), ("src", toJson s), ("tgt", toJson t)]
+  | .convert s t => [("dec", "convert"), ("src", toJson s), ("tgt", toJson t)]
+  | .convertError s t => [("dec", "convertError"), ("src", toJson s), ("tgt", toJson t)]
+  | .pyError => [("dec", "pyError")]
+
+def entryJson (e : Entry) : Json :=
+  Json.mkObj ([("id", toJson e.node.id), ("opsets", reqsJson e.opsets),
+               ("qualified", toJson true)] ++ decJson e.decision)
+
+def handle (req : Json) : Json :=
+  match (do
+    let t ← req.getObjValAs? String "t"
+    match t with
+    | "policy" =>
+        let reqs ← parseReqs (← req.getObjVal? "reqs")
+        return Json.mkObj [("policy", reqsJson (policy reqs))]
+    | "since" =>
+        let d ← req.getObjValAs? String "d"
+        let o ← req.getObjValAs? String "o"
+        let v ← req.getObjValAs? Nat "v"
+        return Json.mkObj [("since", match genSchemaSince (fold d) (opId d o) v with
+                                      | some s => toJson s | none => Json.null)]
+    | "accepts" =>
+        let d ← req.getObjValAs? String "d"
+        let o ← req.getObjValAs? String "o"
+        let s ← req.getObjValAs? Nat "s"
+        let v ← req.getObjValAs? Nat "v"
+        return Json.mkObj [("accepts", toJson (genAccepts (fold d) (opId d o) s v))]
+    | "model" =>
+        let g ← parseGraph (← req.getObjVal? "graph")
+        let m := buildModel genFacts g
+        return Json.mkObj [
+          ("imports", reqsJson m.imports),
+          ("main", Json.arr (m.main.map entryJson).toArray),
+          ("funcs", Json.arr (m.funcs.map (fun (f : List Req × List Entry) =>
+              Json.mkObj [("imports", reqsJson f.1), ("entries", Json.arr (f.2.map entryJson).toArray)])).toArray)]
+    | _ => throw s!"unknown request {t}") with
+  | .ok j => j
+  | .error e => Json.mkObj [("error", e)]
 
 end Drv.C09
